@@ -34,6 +34,8 @@ func runC15(c *Ctx) {
 	c.Rule("R3", "DeleteRange(min,max) deletes [min, max+1) and always writes", 1)
 	c.Rule("R4", "StoreLogs puts every entry and writes once; StoreLog stores encode(log) under log.Index", 2)
 	c.Rule("R5", "shared codec handle; missing entry = ErrLogNotFound by nil-ness", 2)
+	c.Rule("R6", "cgo wrapper (syntax-level): a key is reported absent only when the C value pointer is NULL", 2)
+	wrapperAbsence(c, "R6")
 	logT, ok1 := consensusTableConst(p, "logTable")
 	stableT, ok2 := consensusTableConst(p, "stableTable")
 	if !ok1 || !ok2 {
